@@ -55,6 +55,7 @@ func targets() []target {
 		{name: "socks4", cfg: `{"commands":["CONNECT"],"ports":[80,443],"networks":["10.0.0.0/8","192.168.1.1"]}`, gens: g(mx.GenSocks4)},
 		{name: "socks5", gens: g(mx.GenSocks5)},
 		{name: "socks5", cfg: `{"auth_methods":[0,2,128]}`, gens: g(mx.GenSocks5)},
+		{name: "socks5", cfg: `{"auth_methods":[1,2]}`, gens: g(mx.GenSocks5)},
 		{name: "proxy_protocol", gens: g(mx.GenProxyProto)},
 		{name: "regexp", cfg: `{"pattern":"^GET","count":3}`, gens: g(mx.GenHTTP1)},
 		{name: "regexp", cfg: `{"pattern":"(a|b)*c$","count":8192}`, gens: g(mx.GenHTTP1)},
